@@ -95,3 +95,75 @@ func (c *Chain) ProjectGenesis(appState []byte) (M, error) {
 	return M{"aol": M{"owners": owners, "topics": topics, "writers": writers, "records": records}, "did": dids, "denoms": denoms, "pnfts": pnfts,
 		"nDenoms": len(pg.Denoms), "nPnfts": len(pg.Pnfts), "junk": junk}, nil
 }
+
+// concTime: abstract time index -> nanoseconds (-2 = no timestamp at all)
+func concNanos(ts int) int64 {
+	if ts == -2 {
+		return 0
+	}
+	return blockTime(int64(ts)).UnixNano()
+}
+
+// concGenesis builds the REAL genesis of the three custom modules from an abstract genesis value (spec/GenesisMC.tla, shape of Genesis!Gen
+// before MapOf: sets of entries).  The inverse of ProjectGenesis.
+func (c *Chain) concGenesis(g M, gs map[string]json.RawMessage) error {
+	cdc := c.cdc()
+	keyStr := func(parts []any, kinds ...string) string {
+		out := []string{}
+		for i, p := range parts {
+			s := p.(string)
+			switch kinds[i] {
+			case "acct":
+				s = c.bech(s)
+			case "topic":
+				s = conc(topicDict, s)
+			}
+			out = append(out, s)
+		}
+		return strings.Join(out, aoltypes.GenesisKeySeparator)
+	}
+	ag := aoltypes.DefaultGenesis()
+	for _, e := range list(g, "aolOwners") {
+		em := e.(M)
+		ag.Owners[keyStr(list(em, "k"), "acct")] = &aoltypes.Owner{TotalTopics: uint64(num(em, "v"))}
+	}
+	for _, e := range list(g, "aolTopics") {
+		em := e.(M)
+		v := em["v"].(M)
+		ag.Topics[keyStr(list(em, "k"), "acct", "topic")] = &aoltypes.Topic{Description: str(v, "desc"), TotalRecords: uint64(num(v, "nr")), TotalWriters: uint64(num(v, "nw"))}
+	}
+	for _, e := range list(g, "aolWriters") {
+		em := e.(M)
+		v := em["v"].(M)
+		ag.Writers[keyStr(list(em, "k"), "acct", "topic", "acct")] = &aoltypes.Writer{Moniker: str(v, "mon"), Description: str(v, "desc"), NanoTimestamp: concNanos(int(num(v, "ts")))}
+	}
+	for _, e := range list(g, "aolRecords") {
+		em := e.(M)
+		v := em["v"].(M)
+		ag.Records[keyStr(list(em, "k"), "acct", "topic", "offset")] = &aoltypes.Record{Key: []byte(str(v, "key")), Value: []byte(str(v, "val")),
+			WriterAddress: c.bech(str(v, "w")), NanoTimestamp: concNanos(int(num(v, "ts")))}
+	}
+	gs[aoltypes.ModuleName] = cdc.MustMarshalJSON(ag)
+	dg := didtypes.GenesisState{Documents: map[string]*didtypes.DIDDocumentWithSeq{}}
+	for _, e := range list(g, "did") {
+		em := e.(M)
+		v := em["v"].(M)
+		dg.Documents[didtypes.GenesisDIDDocumentKey{DID: conc(didDict, str(em, "k"))}.Marshal()] = &didtypes.DIDDocumentWithSeq{Document: concDoc(v["doc"].(M)), Sequence: uint64(num(v, "seq"))}
+	}
+	gs[didtypes.ModuleName] = cdc.MustMarshalJSON(&dg)
+	pg := pnfttypes.DefaultGenesis()
+	for _, e := range list(g, "denoms") {
+		em := e.(M)
+		v := em["v"].(M)
+		pg.Denoms = append(pg.Denoms, &pnfttypes.Denom{Id: conc(denomDict, str(em, "id")), Name: str(v, "name"), Symbol: str(v, "symbol"), Description: str(v, "desc"),
+			Uri: str(v, "uri"), UriHash: str(v, "hash"), Owner: c.bech(str(v, "owner")), Data: str(v, "data")})
+	}
+	for _, e := range list(g, "pnfts") {
+		em := e.(M)
+		v := em["v"].(M)
+		pg.Pnfts = append(pg.Pnfts, &pnfttypes.Pnft{DenomId: conc(denomDict, str(em, "denom")), Id: conc(tokenDict, str(em, "id")), Name: str(v, "name"), Description: str(v, "desc"),
+			Uri: str(v, "uri"), UriHash: str(v, "hash"), Data: str(v, "data"), Creator: c.bech(str(v, "creator")), Owner: c.bech(str(v, "owner")), CreatedAt: blockTime(int64(num(v, "at")))})
+	}
+	gs[pnfttypes.ModuleName] = cdc.MustMarshalJSON(pg)
+	return nil
+}
